@@ -245,7 +245,7 @@ void vh_init(int tier)
 }
 
 /* ---- executing a history in a fresh process ---- */
-struct hres { uint64_t r[8]; int n; int leak; int done; char invalid[400]; };
+struct hres { uint64_t r[8]; int failed[8]; int n; int leak; int done; char invalid[400]; };
 static struct hres* SHR;
 
 static uint64_t hash_bytes(const void* p, size_t n, uint64_t h)
@@ -287,7 +287,7 @@ static void exec_history(const int* h, int n)
         for(i = 0; i < n; i++){
                 const struct op* o = &OPS[h[i]];
                 uint64_t r = 1469598103934665603ULL;
-                int rc;
+                int rc = OK;
                 switch(o->kind){
                 case OP_K: {
                         struct kx_set in;
@@ -389,6 +389,7 @@ static void exec_history(const int* h, int n)
                         break;
                 }
                 SHR->r[i] = r;
+                SHR->failed[i] = (o->kind != OP_F && rc != OK);
                 SHR->n = i + 1;
         }
         for(i = 0; i < 2; i++){
@@ -497,6 +498,31 @@ int vh_case(uint64_t id, int tier)
                 for(i = 0; i < n; i++){
                         if(keep[i]){
                                 p[np++] = h[i];
+                        }
+                }
+        }
+        /* erasure of refused reads: a kalign_read_input that returned FAIL has added nothing to the object, so the last call must
+           give the same result when the refused reads before it are left out (fresh process).  Not demanded of a failed kalign_run:
+           it may fail after it has begun to take the object apart (e.g. the gaps of an alignment that was read are gone). */
+        {
+                int e[8], ne = 0, dropped = 0;
+                for(i = 0; i < n; i++){
+                        if(i < n - 1 && res.failed[i] && OPS[h[i]].kind == OP_R){
+                                dropped++;
+                        }else{
+                                e[ne++] = h[i];
+                        }
+                }
+                if(dropped && enabled(e, ne, tier)){
+                        struct hres eres;
+                        if(run_fresh(e, ne, &eres, how, sizeof how, 0) == 0){
+                                vh_add("library_calls", (uint64_t)ne);
+                                if(eres.r[ne - 1] != res.r[n - 1]){
+                                        char es[300];
+                                        hist_str(e, ne, es, sizeof es);
+                                        vh_fail("sem:refused-read-leaves-trace", "the last call gives a different result than in the history without the %d refused read(s) before it (%s)", dropped, es);
+                                }
+                                vh_count("nontrivial_histories_with_refused_reads_erased");
                         }
                 }
         }
